@@ -522,6 +522,107 @@ func c06RelatedTy(ctx *Ctx, t cty.Type, depth int) cty.Type {
 	}
 }
 
+// c06OptCause explains an optional-attribute annotation left in a conversion result: it descends
+// result and source in parallel to the first member whose type still carries the annotation and
+// says what the source had there.
+func c06OptCause(src, res cty.Value) string {
+	for depth := 0; depth < 12; depth++ {
+		ru, _ := res.Unmark()
+		su, _ := src.Unmark()
+		rt := ru.Type()
+		state := "known"
+		if ru.IsNull() {
+			state = "null"
+		} else if !ru.IsKnown() {
+			state = "unknown"
+		}
+		if state != "known" {
+			return state + "-result-for-" + c06Kind(su.Type()) + "-source"
+		}
+		srcUsable := su.IsKnown() && !su.IsNull()
+		switch {
+		case rt.IsObjectType():
+			found := false
+			for _, name := range sortedKeys(rt.AttributeTypes()) {
+				if !tyHasOptional(rt.AttributeType(name)) {
+					continue
+				}
+				found = true
+				res = ru.GetAttr(name)
+				st := su.Type()
+				switch {
+				case srcUsable && st.IsObjectType() && st.HasAttribute(name):
+					src = su.GetAttr(name)
+				case srcUsable && st.IsMapType() && su.HasIndex(cty.StringVal(name)).True():
+					src = su.Index(cty.StringVal(name))
+				default:
+					state := "known"
+					if r, _ := res.Unmark(); r.IsNull() {
+						state = "null"
+					} else if !r.IsKnown() {
+						state = "unknown"
+					}
+					return state + "-for-attribute-missing-from-" + c06Kind(st) + "-source"
+				}
+				break
+			}
+			if !found {
+				return "annotation-on-the-object-itself"
+			}
+		case rt.IsListType() || rt.IsSetType() || rt.IsMapType() || rt.IsTupleType():
+			if ru.LengthInt() == 0 {
+				return "empty-" + c06Kind(rt) + "-from-" + c06Kind(su.Type()) + "-source"
+			}
+			if !srcUsable || !su.CanIterateElements() || su.LengthInt() == 0 {
+				return "members-of-" + c06Kind(rt) + "-without-source-members"
+			}
+			ri, si := ru.ElementIterator(), su.ElementIterator()
+			advanced := false
+			for ri.Next() && si.Next() {
+				_, re := ri.Element()
+				_, se := si.Element()
+				if tyHasOptional(re.Type()) {
+					res, src, advanced = re, se, true
+					break
+				}
+			}
+			if !advanced {
+				return "member-of-" + c06Kind(rt)
+			}
+		default:
+			return "leaf-" + c06Kind(rt)
+		}
+	}
+	return "deep"
+}
+
+// targets with optional attributes nested inside optional attributes, for sources that lack them
+func c06OptionalTarget(ctx *Ctx, v cty.Value) cty.Type {
+	t := v.Type()
+	atys := map[string]cty.Type{}
+	var opt []string
+	switch {
+	case t.IsObjectType():
+		for k, a := range t.AttributeTypes() {
+			atys[k] = a
+		}
+	case t.IsMapType():
+		for _, k := range []string{"a", "b", "k"} {
+			if ctx.R.Intn(2) == 0 {
+				atys[k] = t.ElementType()
+			}
+		}
+	default:
+		return cty.List(c06OptionalTarget(ctx, cty.EmptyObjectVal))
+	}
+	for k := ctx.R.Intn(3); k >= 0; k-- {
+		name := []string{"n", "zz", "m", "d"}[ctx.R.Intn(4)]
+		atys[name] = genTy(ctx.R, 2, TyOpts{Dyn: true, Opt: true, MaxWidth: 2})
+		opt = append(opt, name)
+	}
+	return cty.ObjectWithOptionalAttrs(atys, opt)
+}
+
 func c06Convert(j *c06Judge) {
 	ctx := j.ctx
 	for i := 0; i < ctx.N(6000, 150000); i++ {
@@ -531,13 +632,33 @@ func c06Convert(j *c06Judge) {
 		}
 		v := genVal(ctx.R, genTy(ctx.R, 2, TyOpts{Dyn: true}), 2, o)
 		var want cty.Type
-		switch ctx.R.Intn(6) {
+		switch ctx.R.Intn(8) {
 		case 0:
 			want = genTy(ctx.R, 2, TyOpts{Dyn: true, Opt: true})
 		case 1:
 			want = mutateTy(ctx.R, v.Type(), TyOpts{Dyn: true, Opt: true})
+		case 2, 3:
+			if ctx.R.Intn(2) == 0 {
+				e := genTy(ctx.R, 1, TyOpts{})
+				if ctx.R.Intn(2) == 0 {
+					v = genVal(ctx.R, cty.Map(e), 2, o)
+				} else {
+					v = genVal(ctx.R, genTy(ctx.R, 2, TyOpts{}), 2, o)
+				}
+			}
+			want = c06OptionalTarget(ctx, v)
+			if ctx.R.Intn(3) == 0 {
+				want = []cty.Type{cty.List(want), cty.Map(want), cty.Tuple([]cty.Type{want})}[ctx.R.Intn(3)]
+				v = []cty.Value{cty.ListVal([]cty.Value{v}), cty.TupleVal([]cty.Value{v}), cty.ObjectVal(map[string]cty.Value{"k": v})}[ctx.R.Intn(3)]
+			}
 		default:
 			want = c06RelatedTy(ctx, v.Type(), 0)
+		}
+		j.nextCause = func(res cty.Value) string {
+			if !tyHasOptional(res.Type()) {
+				return ""
+			}
+			return c06OptCause(v, res)
 		}
 		j.produce("convert.Convert", func() string { return "convert.Convert(" + v.GoString() + ", " + want.GoString() + ")" }, func() cty.Value {
 			r, err := convert.Convert(v, want)
@@ -619,8 +740,28 @@ var c06Funcs = map[string]function.Function{
 
 // an argument for a parameter of the given type constraint
 func c06Arg(ctx *Ctx, pt cty.Type, o ValOpts) cty.Value {
-	if pt == cty.Number && ctx.R.Intn(2) == 0 {
-		return cty.NumberIntVal(int64(ctx.R.Intn(7) - 2)) // small indices / counts reach more Impl code
+	if pt == cty.Number {
+		// small magnitudes only: several stdlib functions allocate in proportion to a numeric
+		// argument (indent, range, substr, …) — memory use is another property's subject
+		switch ctx.R.Intn(8) {
+		case 0:
+			if o.Unknown {
+				return genUnknown(ctx.R, cty.Number)
+			}
+		case 1:
+			if o.Null {
+				return cty.NullVal(cty.Number)
+			}
+		case 2:
+			return cty.NumberFloatVal([]float64{0.5, 1.5, -2.25, 2.5}[ctx.R.Intn(4)])
+		case 3:
+			v := cty.NumberIntVal(int64(ctx.R.Intn(7) - 2))
+			if o.Marks {
+				v = v.Mark(markNames[ctx.R.Intn(3)])
+			}
+			return v
+		}
+		return cty.NumberIntVal(int64(ctx.R.Intn(7) - 2))
 	}
 	if pt == cty.String && ctx.R.Intn(3) == 0 {
 		return cty.StringVal([]string{"%s-%d", "a,b\nc,d", "[1, {\"é\": null}]", "(a)(b)?", "a", ","}[ctx.R.Intn(6)])
